@@ -200,8 +200,8 @@ def classInfo (k : Cls) : Except Err QInfo :=
     .ok { gateName := nm, imports := importStrings k, defs := (definitions k).map fun d => { text := d },
           usage := usageOf k nm, multi := multiComp k }
 
-def dictSet {α : Type} (d : List (Str × α)) (k : Str) (v : α) : List (Str × α) :=
-  if d.any (fun p => p.1 == k) then d.map (fun p => if p.1 == k then (k, v) else p) else d ++ [(k, v)]
+/-- `d[k] = v` on an association list read with `lookupTbl` (first match wins, so prepending overrides) -/
+def dictSet {α : Type} (d : List (Str × α)) (k : Str) (v : α) : List (Str × α) := (k, v) :: d
 
 structure WrapAcc where
   imports : List Str := []
@@ -563,13 +563,18 @@ def Op.cls : Op → Option Cls
   | .one g _ => some (.g1 g) | .wrap _ _ => none | .ctrl g _ _ => some (.g2 g)
   | .cctrl g _ _ _ => some (.gc g) | .meas _ _ => some .measZ
 
+/-- `if name:` — `None` and `""` are both dropped -/
+def truthyName : Option Str → Option Str
+  | some [] => none
+  | o => o
+
 /-- one iteration of the loop of `to_json` -/
 def toJsonOp (op : Op) : JOp :=
   match op with
   | .wrap gs _ =>
     { type := some "one qubit gate wrapper".toList,
       -- `if name:` drops both None and ""
-      opList := some (gs.filterMap fun g => match classToName (.g1 g) with | some [] => none | o => o),
+      opList := some (gs.filterMap fun g => truthyName (classToName (.g1 g))),
       qTypes := op.qRegs.map (·.t), qRegs := op.qRegs.map (·.i), cRegs := op.cRegs }
   | _ =>
     { type := op.cls.bind classToName, opList := none,
@@ -626,11 +631,15 @@ def fromJsonOp (j : JOp) : Except Err Op :=
         | .ok a => mkOne k a
         | .error e => .error e
 
+/-- one iteration of the loop of `from_json` -/
+def fromJsonStep (c : Circuit) (jo : JOp) : Except Err Circuit :=
+  match fromJsonOp jo with
+  | .error e => .error e
+  | .ok op => c.add op
+
 /-- `CircuitDAG.from_json` -/
 def fromJson (j : JCirc) : Except Err Circuit :=
-  j.ops.foldlM (fun (c : Circuit) jo => do
-    let op ← fromJsonOp jo
-    c.add op) { np := j.np, ne := j.ne, nc := j.nc, ops := [] }
+  j.ops.foldlM fromJsonStep { np := j.np, ne := j.ne, nc := j.nc, ops := [] }
 
 /-! ## the circuit as a sequence of primitive operations (application order) -/
 
